@@ -1023,6 +1023,9 @@ pub fn huge_length_scenario(rep: &mut Report) {
         let buf: &mut [u8] = unsafe { std::slice::from_raw_parts_mut(p, BIG) };
         let _ = apply_op(buf, &Op::Alloc { t: 0, len: 16, allow: false });
         let _ = apply_op(buf, &Op::Write { t: 0, rep: 0, seed: 7 });
+        // an entry behind the one that will be resized: a late failure must not have moved it
+        let _ = apply_op(buf, &Op::Alloc { t: 2, len: 5, allow: false });
+        let _ = apply_op(buf, &Op::Write { t: 2, rep: 0, seed: 9 });
         let snap = |b: &[u8]| (b[..4096].to_vec(), b[BIG - 4096..].to_vec());
         let ops: Vec<(&str, Option<Op>)> = vec![
             ("realloc", Some(Op::Realloc { t: 0, len: 1usize << 32, rep: 0 })),
